@@ -2088,6 +2088,9 @@ def family(name, tier="quick", seed=0, extra=()):
     if name == "peephole":
         import probes_peephole
         return probes_peephole.fam_peephole(tier, seed, extra)
+    if name == "scope":
+        import probes_scope
+        return probes_scope.fam_scope(tier, seed, extra)
     if name == "iter":
         import probes_iter
         return probes_iter.fam_iter(tier, seed, extra)
